@@ -148,7 +148,10 @@ def monotonic_factorization(arr: ArrayType1D) -> Tuple[int, np.ndarray, pd.Index
     pd_type = pandas_type_from_array(arr)
 
     if pd_type.kind == "M":
-        arr, pd_type = _convert_timestamp_to_tz_unaware(arr)
+        arr, orig_type = _convert_timestamp_to_tz_unaware(arr)
+        if hasattr(orig_type, "kind"):
+            # arrow inputs report a pyarrow type here: keep the pandas dtype for those
+            pd_type = orig_type
 
     arr_list = _val_to_numpy(arr, as_list=True)
 
